@@ -121,8 +121,8 @@ def _inv_unit():
     body = X.body_after(text, r"T fp<T>::get_mult_inverse\(T &a, T &p\)\s*", "fp::get_mult_inverse")
     r = list(THROW_RULE); r[2] = 2
     body = X.rewrite(body, [tuple(r),
-                            (r"fp<T>::ext_gcd\(a, p, x, y\)", r"ext_gcd(a_p, p_p, &x, &y)", 1, "type-binding",
-                             "reference arguments passed as pointers")], log)
+                            (r"fp<T>::ext_gcd\((\w+), (\w+), (\w+), (\w+)\)", r"ext_gcd(&(\1), &(\2), &(\3), &(\4))", 1, "type-binding",
+                             "reference arguments passed as pointers (a, p are bound to *a_p, *p_p)")], log)
     fn = r"""
 typedef long T;
 #define T_MIN (-9223372036854775807L-1)
